@@ -14,7 +14,7 @@ import numpy as np
 from harness import common as C
 
 HEADER = """From Coq Require Import List ZArith QArith Bool. Import ListNotations.
-From TLV Require Import Base.Tensor Model.Constraints Model.ConstraintsStop Corr.C11.
+From TLV Require Import Base.Tensor Model.Constraints Model.ConstraintsStop Model.ConstraintsNc Corr.C11.
 Close Scope Q_scope. Close Scope Z_scope. Open Scope nat_scope."""
 
 KINDS = ["non_negative", "l1_reg", "l2_reg", "l2_square_reg", "unimodality", "normalize", "simplex",
@@ -428,6 +428,10 @@ def _static_dispatch(px_tree):
     fn = _find_def(px_tree, "proximal_operator")
     module_funcs = {n.name for n in px_tree.body if isinstance(n, ast.FunctionDef)}
     chain = [st for st in fn.body if isinstance(st, ast.If) and isinstance(st.test, ast.Compare) and _is_name(st.test.left, "constraint")]
+    table_dicts = [st for st in fn.body if isinstance(st, ast.Assign) and len(st.targets) == 1 and isinstance(st.targets[0], ast.Name)
+                   and isinstance(st.value, ast.Dict) and st.value.keys and all(isinstance(v, ast.Lambda) for v in st.value.values)]
+    if len(table_dicts) == 1:
+        return _static_dispatch_dict(fn, chain, table_dicts[0], module_funcs)
     if len(chain) != 1:
         raise StaticError("proximal_operator: expected exactly one if/elif chain on `constraint`")
     node = chain[0]
@@ -450,6 +454,41 @@ def _static_dispatch(px_tree):
             else_raises = all(isinstance(st, ast.Raise) for st in rest)
             break
     return none_ok, table, else_raises
+
+
+def _static_dispatch_dict(fn, chain, assign, module_funcs):
+    """the dispatch written as a table:  ops = {"<name>": lambda t, p: <expr>, ...};  [if constraint is None: return tensor];
+    [if constraint not in ops: raise ...];  return ops[constraint](tensor, parameter)"""
+    import ast, copy
+    dname = assign.targets[0].id
+    none_ok = any(len(st.test.ops) == 1 and isinstance(st.test.ops[0], ast.Is) and isinstance(st.test.comparators[0], ast.Constant)
+                  and st.test.comparators[0].value is None and len(st.body) == 1 and isinstance(st.body[0], ast.Return)
+                  and _is_name(st.body[0].value, "tensor") and not st.orelse for st in chain)
+    rets = [st for st in fn.body if isinstance(st, ast.Return)]
+    ok_ret = (len(rets) == 1 and isinstance(rets[0].value, ast.Call) and isinstance(rets[0].value.func, ast.Subscript)
+              and _is_name(rets[0].value.func.value, dname) and _is_name(rets[0].value.func.slice, "constraint")
+              and len(rets[0].value.args) == 2 and _is_name(rets[0].value.args[0], "tensor") and _is_name(rets[0].value.args[1], "parameter")
+              and not rets[0].value.keywords and fn.body.index(rets[0]) > fn.body.index(assign))
+    if not ok_ret:
+        raise StaticError("proximal_operator: a table of lambdas is built but not applied as `table[constraint](tensor, parameter)`")
+    table = []
+    for k_, lam in zip(assign.value.keys, assign.value.values):
+        if not (isinstance(k_, ast.Constant) and isinstance(k_.value, str)):
+            raise StaticError("proximal_operator: a key of the dispatch table is not a string constant")
+        a = lam.args
+        if a.vararg or a.kwarg or a.kwonlyargs or a.defaults or len(a.args) != 2:
+            table.append(f"({_kcoq(k_.value)}, DUnknown)")
+            continue
+        ren = {a.args[0].arg: "tensor", a.args[1].arg: "parameter"}
+
+        class Ren(ast.NodeTransformer):
+            def visit_Name(self, node):
+                if node.id in ren:
+                    return ast.copy_location(ast.Name(id=ren[node.id], ctx=node.ctx), node)
+                # a free `tensor` / `parameter` of the enclosing function captured under another binding would be mistranslated
+                return ast.copy_location(ast.Name(id="_outer_" + node.id, ctx=node.ctx), node) if node.id in ("tensor", "parameter") else node
+        table.append(f"({_kcoq(k_.value)}, {_dop(Ren().visit(copy.deepcopy(lam.body)), module_funcs)})")
+    return none_ok, table, True      # a name without an entry raises KeyError (or the explicit raise before the look-up)
 
 
 def _ndim_names(fn):
@@ -506,11 +545,27 @@ def _static_forward(fn, callee, self_attrs=False):
     call, loops, stmt = calls[0]
     params = {a.arg for a in fn.args.args + fn.args.kwonlyargs}
     nd = _ndim_names(fn)
-    if any(kw.arg is None for kw in call.keywords):
-        raise StaticError(f"{fn.name} -> {callee}: **kwargs forwarding is outside the translator")
+    keywords = []
+    for kw in call.keywords:
+        if kw.arg is not None:
+            keywords.append(kw)
+            continue
+        # `**name` where name is bound exactly once in the function, by a dict display with constant string keys or by dict(k=v, ...)
+        binds = ([st for st in ast.walk(fn) if isinstance(st, ast.Assign) and len(st.targets) == 1 and isinstance(kw.value, ast.Name)
+                  and _is_name(st.targets[0], kw.value.id)] if isinstance(kw.value, ast.Name) else [])
+        stores = [t for t in ast.walk(fn) if isinstance(t, ast.Name) and isinstance(kw.value, ast.Name) and t.id == kw.value.id and isinstance(t.ctx, ast.Store)]
+        if len(binds) != 1 or len(stores) != 1:
+            raise StaticError(f"{fn.name} -> {callee}: **kwargs forwarding of something else than a dict bound once in the function")
+        v = binds[0].value
+        if isinstance(v, ast.Dict) and all(isinstance(k_, ast.Constant) and isinstance(k_.value, str) for k_ in v.keys):
+            keywords += [ast.keyword(arg=k_.value, value=e) for k_, e in zip(v.keys, v.values)]
+        elif isinstance(v, ast.Call) and _is_name(v.func, "dict") and not v.args and all(k_.arg is not None for k_ in v.keywords):
+            keywords += list(v.keywords)
+        else:
+            raise StaticError(f"{fn.name} -> {callee}: the dict forwarded with ** is not a display with constant keys")
     pairs, oexp, nexp = [], "ONone", "NNone"
     npos = len(call.args)
-    for kw in call.keywords:
+    for kw in keywords:
         v = kw.value
         if kw.arg in KINDS:
             if self_attrs:
@@ -942,6 +997,15 @@ def run_admm(cfg, rec):
     UtM = structured_matrix(rs, rows, r, how, cfg.get("scale", 1.0))
     dual = np.zeros((rows, r)) if (cfg.get("zero_dual", True) or how != "generic") else 0.1 * rs.randn(rows, r)
     spec = spec_from_json(cfg["spec"])
+    if cfg.get("n_const_none"):
+        # the `n_const is None` branch (Model/ConstraintsNc.v): the keywords are ignored, the unconstrained least-squares solution is returned
+        st, v = C.call_impl(admm, UtM, UtU, x0, dual, n_iter_max=cfg["n_iter"], n_const=None, order=order, tol=cfg.get("tol", 1e-6), **spec)
+        if st != "ok":
+            return (None if degenerate_message(v) else "Err"), [], False
+        x = np.asarray(v[0])
+        ls = np.transpose(np.linalg.solve(np.transpose(UtU), np.transpose(UtM)))
+        fails = [] if np.array_equal(np.asarray(v[2]), dual) else [("C11_n_const_none_ignores_request", "admm(n_const=None) changed the dual variable")]
+        return ("(Ok PvRaw)" if (x.shape == ls.shape and np.allclose(x, ls, rtol=1e-12, atol=1e-14)) else "(Ok (PvUser 0%nat))" if np.array_equal(x, x0) else "(Ok PvOther)"), fails, False
     with rec:
         st, v = C.call_impl(admm, UtM, UtU, x0, dual, n_iter_max=cfg["n_iter"], n_const=n, order=order, tol=cfg.get("tol", 1e-6), **spec)
     calls = list(rec.calls)
@@ -1017,6 +1081,11 @@ def run_prox(cfg):
     T = structured_matrix(rs, cfg["rows"], cfg["rank"], cfg.get("input", "generic"), cfg.get("scale", 1.0))
     n, order = cfg["n"], cfg["order"]
     spec = spec_from_json(cfg["spec"])
+    if cfg.get("n_const_none"):
+        st, out = C.call_impl(proximal_operator, np.array(T, copy=True), n_const=None, order=order, **spec)
+        if st != "ok":
+            return "Err", []
+        return ("(Ok PvRaw)" if same_array(out, T) else "(Ok PvOther)"), []
     st, out = C.call_impl(proximal_operator, np.array(T, copy=True), n_const=n, order=order, **spec)
     exp = expected_table(n, spec)
     fails = []
@@ -1416,6 +1485,18 @@ def gen_small_cfgs(tier, rng):
         order = rng.randrange(n)
         yield dict(kind="admm", n=n, order=order, rank=rng.choice([1, 2]), rows=rng.randint(3, 5), n_iter=0, seed=rng.randrange(1 << 30),
                    zero_dual=True, tol=1e-6, spec=spec_to_json(one_spec(n, order))), "admm_inner0"
+    # n_const=None: the constraint machinery is switched off (valid, double and out-of-range requests alike), inner budgets 0/1/3
+    for _ in range(6 * mult):
+        n = rng.choice([3, 4])
+        order = rng.randrange(n)
+        spec = one_spec(n, order)
+        if rng.random() < 0.4:
+            k2 = rng.choice([x for x in KINDS if x not in spec])
+            spec[k2] = form_spec(k2, rng.choice(["scalar", "dict"]), (order,), n, RUN_PARAMS[k2][0])     # a double constraint: not rejected here
+        yield dict(kind="admm", n=n, order=order, rank=rng.choice([1, 2]), rows=rng.randint(3, 5), n_iter=rng.choice([0, 1, 3]), seed=rng.randrange(1 << 30),
+                   zero_dual=rng.random() < 0.5, tol=1e-6, n_const_none=True, spec=spec_to_json(spec)), "admm_n_const_none"
+        yield dict(kind="prox", n=n, order=order, rank=rng.choice([1, 2, 3]), rows=rng.randint(3, 6), seed=rng.randrange(1 << 30), n_const_none=True,
+                   spec=spec_to_json(spec)), "prox_n_const_none"
     # the zero matrix through the dispatch: 0/0 for the two normalising kinds (known finding), feasible output for the others
     for k in HARD:
         n = rng.choice([1, 3])
@@ -1552,8 +1633,12 @@ def run(chk):
             chk.finding(ep, cfg, msg, pred)
         if lit is not None:
             cid = len(cases)
-            if cfg["kind"] == "admm":
+            if cfg["kind"] == "admm" and cfg.get("n_const_none"):
+                cases.append(f"CAdmmNc {idlit(cid)} {specs_lit(spec)} {cfg['order']}%nat {cfg['n_iter']}%nat {lit}")
+            elif cfg["kind"] == "admm":
                 cases.append(f"CAdmm {idlit(cid)} {cfg['n']}%nat {specs_lit(spec)} {cfg['order']}%nat {cfg['n_iter']}%nat {lit}")
+            elif cfg.get("n_const_none"):
+                cases.append(f"CProxNc {idlit(cid)} {specs_lit(spec)} {cfg['order']}%nat {lit}")
             else:
                 cases.append(f"CProx {idlit(cid)} {cfg['n']}%nat {specs_lit(spec)} {cfg['order']}%nat {lit}")
             meta.append((cfg["kind"], cfg, lit))
